@@ -157,12 +157,17 @@ class SBool:
     def _r(self):
         return SReal(lift(self))
 
+    # bool (x) bool follows numpy's bool_ semantics (+ is or, * is and); anything else is numeric
     def __mul__(self, o):
+        if isinstance(o, (SBool, bool, np.bool_)):
+            return self.__and__(o)
         return self._r() * o
 
     __rmul__ = __mul__
 
     def __add__(self, o):
+        if isinstance(o, (SBool, bool, np.bool_)):
+            return self.__or__(o)
         return self._r() + o
 
     __radd__ = __add__
